@@ -33,10 +33,13 @@ def _cmd_key(cmd):
     return (type(cmd).__name__, getattr(cmd, "first_address", None), getattr(cmd, "value", None))
 
 
-def catalog(M, tier):
+def catalog(M, tier, settings=False, faults=False):
     """Unique (block command, sensor) pairs over the model configurations, as dicts that a worker can rebuild."""
     out, seen = [], set()
-    for cfg in models.et_configs(M, tier) + models.dt_configs(M, tier):
+    cfgs = models.et_configs(M, tier) + models.dt_configs(M, tier)
+    if faults:
+        cfgs = cfgs + models.et_fault_configs(M, tier)
+    for cfg in cfgs:
         try:
             inv, fake, blocks = models.discover_blocks(M, cfg)
         except Exception as e:  # noqa: BLE001
@@ -50,6 +53,17 @@ def catalog(M, tier):
                 seen.add(key)
                 out.append({"cfg": cfg, "block": bi, "sensor": si, "id": s.id_, "cls": cls_name(s),
                             "first": cmd.first_address, "count": cmd.value, "kind": "runtime"})
+    if settings:
+        from .c11 import SETTING_CFGS
+        for cfg in SETTING_CFGS:
+            inv, fake = models.make(M, cfg)
+            for si, st in enumerate(inv.settings()):
+                key = (cfg["family"], "setting", st.id_, st.offset, cls_name(st))
+                if key in seen:
+                    continue
+                seen.add(key)
+                out.append({"cfg": cfg, "block": -1, "sensor": si, "id": st.id_, "cls": cls_name(st),
+                            "first": st.offset, "count": (st.size_ + st.size_ % 2) // 2, "kind": "setting"})
     # ES runtime: one AA55 block, every announced length that cuts a field short plus the full length
     es_cfg = {"family": "ES"}
     inv, fake = models.make(M, es_cfg)
@@ -71,10 +85,37 @@ def catalog(M, tier):
 
 
 _DISCOVER_CACHE = {}
+LAST_TABLE = {}
+
+
+def table_filler(kind, n):
+    """concrete surroundings for the table-level check: 'zero' and 'ff' make several *other* sensors undecodable
+    (month 0 / month 255 in the timestamp ...), which must not influence the sensor under test"""
+    if kind == "zero":
+        return bytes(n)
+    if kind == "ff":
+        return bytes([0xFF]) * n
+    return bytes((i * 73 + 19) % 256 for i in range(n))
 
 
 def rebuild(M, ent):
     """-> (command, sensor, block_len_bytes) in module copy M"""
+    if ent["kind"] == "setting":
+        key = (M.prefix, "setting", repr(sorted(ent["cfg"].items())))
+        if key not in _DISCOVER_CACHE:
+            inv, fake = models.make(M, ent["cfg"], crc=const_crc if M.prefix == "goodwe" else None)
+            _DISCOVER_CACHE[key] = (inv, inv.settings())
+        inv, sts = _DISCOVER_CACHE[key]
+        st = sts[ent["sensor"]]
+        if st.id_ != ent["id"]:
+            raise RuntimeError(f"catalog mismatch: {st.id_} != {ent['id']}")
+        if ent["cfg"]["family"] == "ES" and st.offset < 30000 and cls_name(st) not in ("EcoModeV1", "ByteH"):
+            return inv._READ_DEVICE_SETTINGS_DATA, st, 86      # decoded from the 0109 settings block at its offset
+        if ent["cfg"]["family"] == "ES" and st.offset < 30000:
+            cmd = M.protocol.Aa55ReadCommand(st.offset, ent["count"])
+        else:
+            cmd = inv._read_command(st.offset, ent["count"])
+        return cmd, st, 2 * ent["count"]
     key = (M.prefix, repr(sorted(ent["cfg"].items())))
     if key not in _DISCOVER_CACHE:
         cfg = ent["cfg"]
@@ -90,6 +131,7 @@ def rebuild(M, ent):
     if s.id_ != ent["id"]:
         raise RuntimeError(f"catalog mismatch: {s.id_} != {ent['id']}")
     nbytes = ent["count"] if ent["kind"] == "es_runtime" else 2 * cmd.value
+    LAST_TABLE[M.prefix] = (type(inv), sensors)
     return cmd, s, nbytes
 
 
@@ -110,6 +152,8 @@ def block_response(M, cmd, payload):
 
 
 def position(cmd, s, M):
+    if isinstance(cmd, M.protocol.Aa55ReadCommand):
+        return 0 if s.offset == cmd.first_address else s.offset
     if isinstance(cmd, (M.protocol.ModbusRtuProtocolCommand, M.protocol.ModbusTcpProtocolCommand)):
         return (s.offset - cmd.first_address) * 2
     return s.offset
@@ -184,10 +228,33 @@ def reference(cls, s, b):
     if cls == "Decimal":
         return ("scalar", F, R(_s(b[:2])) / s.scale)
     if cls == "Float":
-        return ("scalar", F, _UF_ROUNDN(_UF_F32(_u(b[:4])) / s.scale, z3.IntVal(3)))
+        return ("float", _u(b[:4]), s.scale)
     if cls == "Timestamp":
         f = [2000 + b[0], b[1], b[2], b[3], b[4], b[5]]
         return ("datetime", datetime_valid_expr(*f), f)
+    if cls == "EcoModeV1":
+        f = {"start_h": _s(b[0:1]), "start_m": _s(b[1:2]), "end_h": _s(b[2:3]), "end_m": _s(b[3:4]),
+             "power": _s(b[4:6]), "on_off": _s(b[6:7]), "day_bits": _s(b[7:8])}
+        hour = lambda h: z3.Or(z3.And(h >= 0, h <= 23), h == 48)  # noqa: E731
+        minute = lambda m: z3.And(m >= 0, m <= 59)  # noqa: E731
+        valid = z3.And(hour(f["start_h"]), minute(f["start_m"]), hour(f["end_h"]), minute(f["end_m"]),
+                       f["power"] >= -100, f["power"] <= 100, z3.Or(f["on_off"] == 0, f["on_off"] == -1))
+        return ("group", valid, f)
+    if cls in ("EcoModeV2", "Schedule", "PeakShavingMode"):
+        f = {"start_h": _s(b[0:1]), "start_m": _s(b[1:2]), "end_h": _s(b[2:3]), "end_m": _s(b[3:4]),
+             "on_off": _s(b[4:5]), "day_bits": _s(b[5:6]), "power": _s(b[6:8]), "soc": _s(b[8:10]),
+             "month_bits": _s(b[10:12])}
+        hour = lambda h: z3.Or(z3.And(h >= 0, h <= 23), h == 48, h == -1)  # noqa: E731
+        minute = lambda m: z3.Or(z3.And(m >= 0, m <= 59), m == -1)  # noqa: E731
+        oo = f["on_off"]
+        known_type = z3.Or(z3.And(oo >= -7, oo <= 6), oo == 85)
+        eco = z3.Or(oo == 0, oo == -1)
+        eco745 = z3.Or(oo == 6, oo == -7)
+        prange = z3.And(z3.Implies(eco, z3.And(f["power"] >= -100, f["power"] <= 100)),
+                        z3.Implies(eco745, z3.And(f["power"] >= -1000, f["power"] <= 1000)))
+        valid = z3.And(hour(f["start_h"]), minute(f["start_m"]), hour(f["end_h"]), minute(f["end_m"]), known_type,
+                       prange, f["soc"] >= 0, f["soc"] <= 100)
+        return ("group", valid, f)
     if cls in ("Enum", "EnumH"):
         return ("label", _s(b[:1]), s._labels)
     if cls == "EnumL":
@@ -209,19 +276,51 @@ class SensorHarness(Harness):
         self.mode, self.ent = mode, ent
         self.name = f"sensor[{mode}]"
         self.params = {k: ent[k] for k in ("cfg", "block", "sensor", "id", "cls", "first", "count", "kind")}
+        if ent.get("table"):
+            self.params["table"] = ent["table"]
+
+    def _single(self):
+        """settings fetched by their own one-sensor request are decoded with read_value() from position 0"""
+        return self.ent["kind"] == "setting" and not (self.ent["cfg"]["family"] == "ES" and self.ent["first"] < 30000
+                                                      and self.ent["cls"] not in ("EcoModeV1", "ByteH"))
 
     def symbolic(self, ex: Explorer) -> str:
         G = shimmed()
         G.modbus._modbus_checksum = const_crc
         cmd, s, nbytes = rebuild(G, self.ent)
         wrap_sensor_labels(s)
-        payload = SBytes.symbolic("B", nbytes) if nbytes else b""
+        tab = self.ent.get("table")
+        if tab:
+            # table level: the real _map_response over the whole live table; only this sensor's bytes are symbolic
+            w = WIDTH.get(cls_name(s), 0)
+            pos = position(cmd, s, G)
+            fill = table_filler(tab, nbytes)
+            sym = SBytes.symbolic("B", nbytes)
+            payload = SBytes(tuple(fill[:pos]) + tuple(sym.items[pos:pos + w]) + tuple(fill[pos + w:]))
+            inv_cls, sensors = LAST_TABLE[G.prefix]
+            for other in sensors:
+                wrap_sensor_labels(other)
+        else:
+            payload = SBytes.symbolic("B", nbytes) if nbytes else b""
         resp = block_response(G, cmd, payload)
         log = sb.READ_LOG = []
         try:
             try:
-                got = s.read(resp)
-                outcome = "value" if got is not None else "none"
+                if tab:
+                    res = inv_cls._map_response(resp, sensors)
+                    if s.id_ not in res:
+                        ex.fail("sensor id missing from the _map_response result")
+                    ids = [x.id_ for x in sensors]
+                    if ids.count(s.id_) > 1 and ids.index(s.id_) == self.ent["sensor"]:
+                        return "shadowed"  # an id defined twice: the later definition wins in the dictionary
+                    got = res[s.id_]
+                    outcome = "value" if got is not None else "none"
+                    if cls_name(s) == "Timestamp":
+                        # _map_response turns ValueError into None: for the reference this is 'ValueError'
+                        outcome = "ValueError" if got is None else "value"
+                else:
+                    got = s.read_value(resp) if self._single() else s.read(resp)
+                    outcome = "value" if got is not None else "none"
             except ValueError as e:
                 got, outcome = e, "ValueError"
             except Exception as e:  # noqa: BLE001
@@ -263,6 +362,28 @@ class SensorHarness(Harness):
                 elif z3.is_real(g) and z3.is_int(val):
                     val = z3.ToReal(val)
                 ex.check(z3.And(z3.Not(none_c), g == val), "value differs from the documented reading of its registers")
+        elif kind == "group":
+            _, valid, f = ref
+            if outcome == "ValueError":
+                ex.check(z3.Not(valid), "valid eco-mode/schedule group reported as undecodable")
+            else:
+                ex.check(z3.And(valid, *[to_z3(getattr(got, k)) == v for k, v in f.items()]),
+                         "eco-mode/schedule group fields differ from its registers")
+        elif kind == "float":
+            _, u, scale = ref
+            special = (u / (2 ** 23)) % 256 == 255
+            if outcome == "ValueError":
+                ex.fail("float sensor raised ValueError", str(got))
+            if isinstance(got, float):
+                if got != got:
+                    ex.check(z3.And(special, u % (2 ** 23) != 0), "NaN reported for registers that do not hold a NaN")
+                elif got in (float("inf"), float("-inf")):
+                    ex.check(u == (0x7F800000 if got > 0 else 0xFF800000), "infinity reported for other registers")
+                else:
+                    ex.fail("float sensor returned a concrete value for symbolic registers", repr(got))
+            else:
+                ex.check(z3.And(z3.Not(special), to_z3(got) == _UF_ROUNDN(_UF_F32(u) / scale, z3.IntVal(3))),
+                         "value differs from the documented reading of its registers")
         elif kind == "datetime":
             _, valid, f = ref
             if outcome == "ValueError":
@@ -287,6 +408,12 @@ class SensorHarness(Harness):
         R = real()
         cmd, s, nbytes = rebuild(R, self.ent)
         payload = bytes(inputs.get(f"B[{i}]", 0) for i in range(nbytes))
+        tab = self.ent.get("table")
+        if tab:
+            w = WIDTH.get(cls_name(s), 0)
+            pos = position(cmd, s, R)
+            fill = table_filler(tab, nbytes)
+            payload = fill[:pos] + payload[pos:pos + w] + fill[pos + w:]
         resp = block_response(R, cmd, payload)
         reads = []
         orig_read = resp._bytes.read
@@ -305,15 +432,31 @@ class SensorHarness(Harness):
                 return d
         resp._bytes = _Spy(resp._bytes)
         viol = None
+        where = f"{self.ent['cfg']['family']}:{self.ent['first']}+{self.ent['count']}:{s.id_}({cls_name(s)}@{s.offset})"
         try:
-            got = s.read(resp)
-            outcome = "value" if got is not None else "none"
+            if tab:
+                inv_cls, sensors = LAST_TABLE[R.prefix]
+                res = inv_cls._map_response(resp, sensors)
+                ids = [x.id_ for x in sensors]
+                if s.id_ not in res:
+                    return {"outcome": "missing", "violation": f"{where}: id missing from the table result (table level)",
+                            "observed": f"filler={tab} keys={len(res)}"}
+                if ids.count(s.id_) > 1 and ids.index(s.id_) == self.ent["sensor"]:
+                    return {"outcome": "shadowed", "violation": None, "observed": "id defined twice"}
+                got = res[s.id_]
+                outcome = "value" if got is not None else "none"
+                if cls_name(s) in ("Timestamp", "EcoModeV1", "EcoModeV2", "Schedule", "PeakShavingMode"):
+                    outcome = "ValueError" if got is None else "value"
+            else:
+                got = s.read_value(resp) if self._single() else s.read(resp)
+                outcome = "value" if got is not None else "none"
         except ValueError as e:
             got, outcome = e, "ValueError"
         except Exception as e:  # noqa: BLE001
             got, outcome = e, f"raised {type(e).__name__}"
             viol = f"{self.ent['cfg']['family']}:{s.id_}({cls_name(s)}): read raised {type(e).__name__}"
-        where = f"{self.ent['cfg']['family']}:{self.ent['first']}+{self.ent['count']}:{s.id_}({cls_name(s)}@{s.offset})"
+        if tab:
+            where += "[table]"
         if self.mode == "C14" and viol is None:
             short = [r for r in reads if r[2] < r[1]]
             if short:
@@ -379,6 +522,29 @@ class SensorHarness(Harness):
                 exp = "ValueError"
             if (outcome == "ValueError") != (exp == "ValueError") or (outcome != "ValueError" and got != exp):
                 return f"{where}: timestamp differs from its registers"
+            return None
+        elif cls in ("EcoModeV1", "EcoModeV2", "Schedule", "PeakShavingMode"):
+            if cls == "EcoModeV1":
+                f = {"start_h": S(b[0:1]), "start_m": S(b[1:2]), "end_h": S(b[2:3]), "end_m": S(b[3:4]),
+                     "power": S(b[4:6]), "on_off": S(b[6:7]), "day_bits": S(b[7:8])}
+                hr = lambda h: 0 <= h <= 23 or h == 48  # noqa: E731
+                mn = lambda m: 0 <= m <= 59  # noqa: E731
+                valid = hr(f["start_h"]) and mn(f["start_m"]) and hr(f["end_h"]) and mn(f["end_m"]) and \
+                    -100 <= f["power"] <= 100 and f["on_off"] in (0, -1)
+            else:
+                f = {"start_h": S(b[0:1]), "start_m": S(b[1:2]), "end_h": S(b[2:3]), "end_m": S(b[3:4]),
+                     "on_off": S(b[4:5]), "day_bits": S(b[5:6]), "power": S(b[6:8]), "soc": S(b[8:10]),
+                     "month_bits": S(b[10:12])}
+                hr = lambda h: 0 <= h <= 23 or h in (48, -1)  # noqa: E731
+                mn = lambda m: 0 <= m <= 59 or m == -1  # noqa: E731
+                oo = f["on_off"]
+                valid = hr(f["start_h"]) and mn(f["start_m"]) and hr(f["end_h"]) and mn(f["end_m"]) and \
+                    (-7 <= oo <= 6 or oo == 85) and (oo not in (0, -1) or -100 <= f["power"] <= 100) and \
+                    (oo not in (6, -7) or -1000 <= f["power"] <= 1000) and 0 <= f["soc"] <= 100
+            if (outcome == "ValueError") == valid:
+                return f"{where}: eco-mode/schedule group validity differs from its registers"
+            if valid and any(getattr(got, k) != v for k, v in f.items()):
+                return f"{where}: eco-mode/schedule group fields differ from its registers"
             return None
         elif cls in ("Enum", "EnumH"):
             exp = s._labels.get(S(b[:1]))
